@@ -127,3 +127,30 @@ Theorem C07_grant_bound_nowrap :
   requireCPU now amt c = ROk c' -> cpu (used c) + amt < cpu (hard c) /\ cpu (used c') = cpu (used c) + amt.
 Proof. exact requireCPU_grant_bound. Qed.
 Print Assumptions C07_grant_bound_nowrap.
+
+(* ---- coroutines x contexts (Ctx/CoroModel.v mirrors the ONE context stack per runtime that all coroutines
+   share, and the per-coroutine Go stacks of CallContext frames).  "No arrangement of nested callcontext, pcall or
+   coroutine calls": if no coroutine is ever suspended inside an open CallContext frame, every frame ends exactly
+   the context it created and the flags its open frames require are always in force ... *)
+From GV Require Ctx.CoroModel Ctx.Coro.
+
+Theorem C07_coroutines_disciplined_contexts_sound :
+  forall l s o, CoroModel.run CoroModel.init l = Some (s, o) -> CoroModel.disciplined CoroModel.init l = true ->
+  CoroModel.all_ok o = true /\ map CoroModel.eid (CoroModel.stack s) = map CoroModel.fr_id (Coro.frs s).
+Proof. exact Coro.coro_disciplined_sound. Qed.
+Print Assumptions C07_coroutines_disciplined_contexts_sound.
+
+(* ... but golua lets a coroutine yield inside pcall, xpcall and runtime.callcontext, and then neither holds: a
+   frame pops another thread's context (the object it returns describes the wrong context) and the body of a
+   context requiring iosafe runs without iosafe in force.  Known finding context-stack-shared-by-coroutines;
+   the witnesses are replayed on the implementation by lib/props/C07.py (and C08.py). *)
+Theorem C07_coroutine_exit_pops_own_refuted :
+  exists l s o, CoroModel.run CoroModel.init l = Some (s, o) /\ CoroModel.all_ok o = false /\
+  exists own en, In (CoroModel.OExit own (Some en)) o /\ CoroModel.eid en <> own.
+Proof. exact Coro.coro_exit_pops_own_refuted. Qed.
+Print Assumptions C07_coroutine_exit_pops_own_refuted.
+
+Theorem C07_coroutine_flags_in_force_refuted :
+  exists l s o, CoroModel.run CoroModel.init l = Some (s, o) /\ In (CoroModel.OFlags 4 0) o.
+Proof. exact Coro.coro_flags_in_force_refuted. Qed.
+Print Assumptions C07_coroutine_flags_in_force_refuted.
